@@ -257,5 +257,5 @@ def cases(tier, seed, ctx=None):
     # from inside the write-progress notification: the blocks arrive in the order of the write calls (family stream)
     for j in range(3 if tier == "quick" else 20):
         nblocks = rng.choice([8, 24, 64])
-        chunks = [bytes([65 + (k % 26)]) * rng.choice([4096, 20000]) for k in range(nblocks)]
-        yield ("stream", [chunks, j % 2, rng.below(2), rng.choice([3, 6, 12])], "stream-burst-topped-up")
+        chunks = [bytes([65 + (k % 26)]) * (20000 if j == 0 else rng.choice([4096, 20000])) for k in range(nblocks)]
+        yield ("stream", [chunks, j % 2, rng.below(2), 12 if j == 0 else rng.choice([3, 6, 12])], "stream-burst-topped-up")
